@@ -7,6 +7,7 @@ import NfpmModel.RpmHdr
 import NfpmModel.RpmFiles
 import NfpmModel.RpmRel
 import NfpmModel.RpmSig
+import NfpmModel.DebControl
 import NfpmModel.Package
 import NfpmModel.Spec.PlanSpec
 import NfpmModel.Spec.PayloadSpec
@@ -405,6 +406,14 @@ def handle (op : String) (args : List String) : Except String String :=
     let es := RpmSig.sigEntries (fun _ => digest) none (List.replicate hdrLen 0) (List.replicate pzLen 0) payloadSize
       ++ RpmSig.digestEntries (fun _ => pdigest) []
     pure (s!"{es.length}" ++ String.join (es.map (fun e => s!" {e.tag} {e.typ} {e.count} {hex e.data}")))
+  -- deb: the control archive as deb.createControl assembles it
+  | "debcontroltar" => do
+    let (mtime, control, md5, conf, trig, scripts) ← run1 (do
+      let t ← pNat; let c ← pBytes; let m ← pBytes; let f ← pBytes; let g ← pBytes
+      let sc ← pList (do let n ← pBytes; let b ← pBytes; pure (n, b))
+      pure (t, c, m, f, g, sc)) args
+    let look (n : Bytes) : Option Bytes := (scripts.find? (fun p => p.1 = n)).map (·.2)
+    pure (hex (Tar.archive (DebCtl.members mtime control md5 conf trig look)))
   | _ => .error s!"unknown op {op}"
 
 partial def loop (hin : IO.FS.Stream) (hout : IO.FS.Stream) : IO Unit := do
